@@ -7,7 +7,9 @@
 (* Part modulo Parts so that several TLC processes share the work.           *)
 EXTENDS StreamSelect, Json
 
-CONSTANTS N, MaxSteps, Part, Parts, AnyNode, EmitCases, EmitMod
+CONSTANTS N, MaxSteps, Part, Parts, AnyNode, EmitCases, EmitMod,
+          Family   \* "all": every document with N nodes; "nested": the 8-node shape  r{ x{ y{t} }, z{ w{ v{t} } } }  with every
+                   \* naming - a candidate (x or y) that may be rejected, followed by a container z whose candidates lie deeper
 
 VARIABLES D, X
 vars == <<D, X>>
@@ -39,7 +41,15 @@ Preds == {[pk |-> "none", pn |-> "", pv |-> ""],
           [pk |-> "child", pn |-> "a", pv |-> ""], [pk |-> "child", pn |-> "b", pv |-> ""]}
 XPaths == { [steps |-> s, pk |-> p.pk, pn |-> p.pn, pv |-> p.pv] : s \in UNION {[1..k -> Steps] : k \in 1..MaxSteps}, p \in Preds }
 
-Init == /\ D \in {Doc(d) : d \in Docs}
+NestedDocs == { [n |-> 8, par |-> <<0, 1, 2, 3, 1, 5, 6, 7>>,
+                  kind |-> <<"E", "E", "E", "T", "E", "E", "E", "T">>,
+                  nm |-> <<nms[1], nms[2], nms[3], t1, nms[4], nms[5], nms[6], t2>>,
+                  at |-> <<"", a1, "", "", "", a2, "", "">>] :
+                nms \in [1..6 -> {"a", "b"}], t1 \in {"1", "2"}, t2 \in (IF Part = 0 THEN {"1", "2"} ELSE {"1"}),
+                a1 \in (IF Part = 0 THEN {"", "1"} ELSE {""}), a2 \in (IF Part = 0 THEN {"", "1"} ELSE {""}) }
+                \* (Part # 0: the reduced variant of the quick tier - no attributes, second text fixed)
+
+Init == /\ D \in (IF Family = "nested" THEN NestedDocs ELSE {Doc(d) : d \in Docs})
         /\ X \in XPaths
 Next == UNCHANGED vars
 Spec == Init /\ [][Next]_vars
